@@ -15,10 +15,10 @@ ID = "C08"
 LEVEL = "exploration"
 RULE = ("texts of grammar G (DESIGN section 3): (1) model programs of vf/gen.py rendered under a drawn style, with 0-3 catalogued faults "
         "planted and 0-8 token/character level mutations; (2) windows of 5-60 lines of the practice corpus and the source snippets of "
-        "tests/test_compiler.py under the same mutations; (3, thorough tier) a coverage-guided atheris campaign whose bytes select a seed "
+        "tests/test_compiler.py under the same mutations; (2b) programs with real included and inserted files, an .include possibly wrapped into a .repeat whose count is a number, a late symbol or address-dependent, plus mutations; (3, thorough tier) a coverage-guided atheris campaign whose bytes select a seed "
         "text and a mutation sequence; (4) a statement grid, enumerated: every directive, 20 mnemonics and 29 other statement heads x 100 "
         "operand shapes (single operands in four contexts: plain, .repeat body, .repeat with an address-dependent count, after .link; "
-        "operand pairs with ', ' and ' ' between them - all in the thorough tier, a seed-chosen eighth in the quick tier). Every text is assembled under FilterHandler(BareHandler) and FilterHandler(GraphicalHandler), failing texts once more with every warning identifier switched off; the "
+        "operand pairs with ', ' and ' ' between them - all in the thorough tier, a seed-chosen sixteenth in the quick tier). Every text is assembled under FilterHandler(BareHandler) and FilterHandler(GraphicalHandler), failing texts once more with every warning identifier switched off; the "
         "outcome must be success or failure with >= 1 error diagnostic. Violations: any other exception (what main_cli prints as "
         "'unexpected internal compiler error'), failure without an error diagnostic, and a run that exceeds 60 s in a fresh "
         "subprocess after exceeding the 5 s in-process watchdog (runs classified slow-but-finite are counted as inconclusive). "
@@ -258,6 +258,39 @@ def g_case(draw):
     return {"kind": "texts", "texts": texts, "charset": draw(st.sampled_from(["bk", "bk", "utf-8"])), "meta": {"source": "G-" + variant, "planted": planted, "mutations": len(muts)}}
 
 
+INCLUDE_LINE = re.compile(r"^([ \t]*)(\.include[^\n]*)$", re.M | re.I)
+
+
+@st.composite
+def tree_case(draw):
+    """programs with real included and inserted files; an .include may be wrapped into a .repeat whose count is a number, a
+    symbol defined at the end of the file, or depends on the address of a label (known only when everything else is)"""
+    prog = draw(gen.program_st(max_files=2, includes=True, inserts=True, const_addr=True, locals=True))
+    style = draw(gen.style_st())
+    st_ = render.Style(style["ints"], style["rules"])
+    tree = {p: render.render_file(stmts, st_)[0] for p, stmts in prog["files"].items()}
+    wrapped = 0
+    for path in sorted(tree):
+        def wrap(m):
+            nonlocal wrapped
+            how = draw(st.sampled_from(["no", "no", "number", "late", "address"]))
+            if how == "no":
+                return m.group(0)
+            wrapped += 1
+            count = {"number": "2", "late": f"wq{wrapped}", "address": f"aq{wrapped} / 400"}[how]
+            head = f"aq{wrapped}:\n" if how == "address" else ""
+            return f"{head}{m.group(1)}.repeat {count} {{\n{m.group(1)}\t{m.group(2)}\n{m.group(1)}}}\nzq{wrapped}:"
+        tree[path] = INCLUDE_LINE.sub(wrap, tree[path])
+        for i in range(1, wrapped + 1):
+            if f"wq{i}" in tree[path] and f"wq{i} =" not in tree[path]:
+                tree[path] += f"wq{i} = 2\n"
+    muts = draw(st.lists(mutation_st, max_size=4))
+    which = draw(st.sampled_from(sorted(tree)))
+    tree[which] = apply_mutations(tree[which], muts)
+    blobs = {k: bytes(v).hex() for k, v in prog.get("blobs", {}).items()}
+    return {"kind": "tree", "tree": tree, "blobs": blobs, "mains": prog["mains"], "charset": "bk", "meta": {"source": "tree", "planted": [], "mutations": len(muts), "wrapped": wrapped}}
+
+
 @st.composite
 def corpus_case(draw):
     seeds = seed_texts()
@@ -310,7 +343,7 @@ def grid_text(head, ops, sep, context):
 
 def grid_cases(tier, seed):
     """the enumeration: all single-operand statements in all contexts; operand pairs in the plain and lazy-repeat contexts
-    (quick tier: one eighth of the pairs, the eighth chosen by the seed)"""
+    (quick tier: one sixteenth of the pairs, chosen by the seed)"""
     heads = grid_heads()
     for head in heads:
         for o in GRID_OPERANDS:
@@ -326,12 +359,20 @@ def grid_cases(tier, seed):
                     continue
                 for sep in (", ", " "):
                     n += 1
-                    if tier == "quick" and (n + seed) % 8:
+                    if tier == "quick" and (n + seed) % 16:
                         continue
                     yield head, [o1, o2], sep, "plain" if n % 3 else "lazy-repeat"
 
 
 def judge(case):
+    if case["kind"] == "tree":
+        tree = dict(case["tree"])
+        tree.update({k: bytes.fromhex(v) for k, v in case.get("blobs", {}).items()})
+        with driver.Scratch(tree) as sc:
+            files = [(os.path.join(sc.path, m), case["tree"][m]) for m in case["mains"]]
+            outs = probe(files, case.get("charset", "bk"))
+            res, label = classify(files, outs, case.get("charset", "bk"))
+        return res, label, outs
     files = [(f"/vf/t{i}.mac", t) for i, t in enumerate(case["texts"])]
     outs = probe(files, case.get("charset", "bk"))
     res, label = classify(files, outs, case.get("charset", "bk"))
@@ -344,6 +385,8 @@ def shards(tier):
     specs = []
     for i in range(k):
         specs.append({"part": "G" if i % 4 != 3 else "corpus", "i": i, "examples": n // k})
+    for i in range(4):
+        specs.append({"part": "tree", "i": i, "examples": n // k})
     for i in range(k):
         specs.append({"part": "grid", "i": i, "n": k, "tier": tier})
     if tier == "thorough":
@@ -372,7 +415,7 @@ def run_shard(spec, ctx):
             if res:
                 ctx.fail(res[0], res[1] + "\n--- text\n" + text, case)
         return
-    strat = g_case() if spec["part"] == "G" else corpus_case()
+    strat = g_case() if spec["part"] == "G" else tree_case() if spec["part"] == "tree" else corpus_case()
 
     def check(case):
         if _hang_confirmed[0] > 4:
@@ -381,7 +424,7 @@ def run_shard(spec, ctx):
             ctx.exclude("skipped-after-confirmed-hang")
             return None
         res, label, outs = judge(case)
-        text = "\n".join(case["texts"])
+        text = "\n".join(case["texts"]) if "texts" in case else "".join(f";;; {p_}\n{t}" for p_, t in sorted(case["tree"].items()))
         lines = [l for l in text.split("\n") if l.strip()]
         reached = outs[0].kind in ("ok", "error") and not any(r[0] == "critical" for r in outs[0].reports)
         m = case["meta"]
@@ -398,7 +441,7 @@ def run_shard(spec, ctx):
 
 
 def replay(case):
-    if case["kind"] == "texts":
+    if case["kind"] in ("texts", "tree"):
         res, label, outs = judge(case)
         return [res] if res else []
     return oracle.replay_generic(case)
